@@ -12,14 +12,19 @@ class SpySolver:
     """External solver with the interface of scipy.sparse.linalg.spsolve that records the
     system handed over by solvePDE (the documented `externalsolver=` boundary)."""
 
-    def __init__(self):
+    def __init__(self, returns='array'):
         self.calls = []
+        self.returns = returns         # what the external solver hands back: 1-D array (usual), python list, column vector
 
     def __call__(self, M, RHS):
         Mc = sp.csr_array(M).copy()
         bc = np.array(RHS, dtype=float, copy=True)
         x = spsolve(Mc.tocsc(), bc)
         self.calls.append((Mc, bc, np.array(x, copy=True)))
+        if self.returns == 'list':
+            return [float(v) for v in x]
+        if self.returns == 'column':
+            return np.asarray(x).reshape(-1, 1)
         return x
 
     def as_default(self, M, RHS):
